@@ -347,6 +347,18 @@ def run(tier, t0):
                 if l > pm.argc and nm not in ('orig_input',) and (pm.local_ty(l) or '') != '&[u8]':
                     res.violation('C10.6', 'C10.6|outer|%s' % (nm or pm.local_ty(l)), pm, pm.line, 'the line loop of parse_more reads the per-call local `%s`' % (nm or '_%d' % l))
     if pm is not None:
+        # C10.11 a non-zero count is reported only from inside the line loop: the per-line state (the open FUNC / STACK CFI
+        # group a blank or foreign line closes) sees every line of the consumed prefix, whatever the chunk holds
+        res.rule('C10.11', 0, floor=1, note='parse_more reports consumed bytes only from inside its per-line loop (no shortcut that skips the line state machine)')
+        loops_pm = pm.loops()
+        body_all = set().union(*loops_pm.values()) if loops_pm else set()
+        for (b, i, t) in ret_assigns(pm):
+            if not (t[0] == 'adt' and t[1].endswith('Result::Ok')):
+                continue
+            res.rule('C10.11', 1)
+            v = pm.expand(t)[2]
+            if v != ('int', 0) and not any(pm.dominates(h, b) for h in loops_pm):
+                res.violation('C10.11', 'C10.11|shortcut', pm, pm.blocks[b]['s'][i].get('line'), 'parse_more returns Ok(%s) from outside its line loop: those bytes were never shown to the per-line state machine, so whether an open FUNC / STACK CFI group is closed by them depends on how the input was chunked' % show(v)[:80])
         oks = [pm.expand(t) for (b, i, t) in ret_assigns(pm) if t[0] == 'adt' and t[1].endswith('Result::Ok')]
         res.rule('C10.2', len(oks))
         for t in oks:
